@@ -4,7 +4,7 @@ from .render import schema_lines, render_tokens
 
 TARGET = {"root": "print c1", "rootind": "print c1 2", "sec": "print c1#7/0 1",
           "opt:l": "optprint c1 l 0", "opt:sec": "optprint c1 sec 1", "opt:t": "optprint c1 t 0",
-          "opt:nd": "optprint c1 nd 0"}
+          "opt:nd": "optprint c1 nd 0", "sec9": "print c1#7/0 9", "opt:sec12": "optprint c1 sec 12"}
 
 
 def replay(verdict, exe, res, seed=0, tag="print", sigprefix="print"):
